@@ -172,6 +172,16 @@ Definition delivered_ok (c : caps) (hc lc : call) : bool :=
   | _ => false
   end.
 
+(* what "the same call" means for the once-in-order clause: the slot and the test *)
+Inductive slot := SStart | SOutcome | SStop.
+Definition shape (c : call) : option (slot * test) :=
+  match c with
+  | StartTest t => Some (SStart, t)
+  | StopTest t => Some (SStop, t)
+  | AddErr _ t _ | AddSkip t _ | AddOk _ t _ => Some (SOutcome, t)
+  | _ => None
+  end.
+
 (* failing outcomes *)
 Definition is_fail (c : call) : bool :=
   match c with
@@ -247,6 +257,11 @@ Fixpoint expected_cbs (tg : list tag_change) (s : sst) (h : list call) : list cb
   | [] => []
   | c :: r => let '(s', out) := spec_step tg s c in out ++ expected_cbs tg s' r
   end.
+
+Fixpoint start_tests (h : list call) : list test :=
+  match h with [] => [] | StartTest t :: r => t :: start_tests r | _ :: r => start_tests r end.
+Fixpoint stop_tests (h : list call) : list test :=
+  match h with [] => [] | StopTest t :: r => t :: stop_tests r | _ :: r => stop_tests r end.
 
 Definition subsetb (a b : list tag) : bool := forallb (fun x => existsb (Nat.eqb x) b) a.
 Definition set_eqb (a b : list tag) : bool := subsetb a b && subsetb b a.
